@@ -1,19 +1,26 @@
 import Arimaa.Props.C07
 import Arimaa.Lemmas.RsAgreeOffered
 import Arimaa.Lemmas.RsAgreeResult
+import Arimaa.Gen.Bridge.GameState_can_pass
+import Arimaa.Gen.Bridge.GameState_has_move
+import Arimaa.Gen.Bridge.GameState_is_terminal
+import Arimaa.Gen.Bridge.GameState_valid_actions
+import Arimaa.Gen.Bridge.GameState_valid_actions_
 
 /-!
 # C07 — the property at the level of the REGENERATED code
 
 `Gen/Rs.lean` is written by `tools/rs2lean2.py` from the current text of engine.rs / zobrist.rs on every
-run; `Lemmas/RsAgree*.lean` prove that each regenerated function equals
-`Res.guard (hand panic guard) (hand total function)`.  This file puts the agreement theorems of the
-functions C07 rests on into the property's proof closure and restates them as one named obligation
-(`C07_code_agrees`), plus corollaries that speak about the regenerated functions directly.  A change of
-the Rust text of one of these functions breaks an obligation here without any test having to find the input.
+run.  `Gen/Bridge/<fn>.lean` (generated) proves `@Rs.fn = @RsBase.fn` — the current text against the
+baseline text — and `Lemmas/RsAgree*.lean` prove that each baseline function equals
+`Res.guard (hand panic guard) (hand total function)`.  This file puts both, for the functions C07 rests
+on, into the property's proof closure and restates them as one named obligation (`C07_code_agrees`) about
+the CURRENT functions, plus corollaries that speak about them directly.  A change of the Rust text of one
+of these functions that alters behaviour breaks an obligation here without any test having to find the input.
+(written by tools/mkrprops.py)
 -/
 namespace Arimaa
-open Gen GameState Arimaa.Gen.Rs Arimaa.Rt
+open Gen GameState Arimaa.Gen.Rs Arimaa.Rt Arimaa.Gen.Bridge
 
 theorem C07_value_of_ok {α : Type} {x : Res α} {p : Bool} {v w : α} (h : x = Res.guard p v) (hx : x = .ok w) :
     p = false ∧ w = v := by
@@ -21,13 +28,16 @@ theorem C07_value_of_ok {α : Type} {x : Res α} {p : Bool} {v w : α} (h : x = 
   obtain ⟨hp, hv⟩ := Res.guard_eq_ok.mp hx
   exact ⟨hp, hv.symm⟩
 
-/-- the agreement theorems C07 rests on, as one obligation -/
+/-- the agreement theorems C07 rests on, about the CURRENT functions, as one obligation -/
 theorem C07_code_agrees :
     (∀ (s : GameState) (cr : Bool), GameState_valid_actions_ s cr = Res.guard (s.validActions_Panics cr) (s.validActions_ cr)) ∧
     (∀ (s : GameState) (b : Board), GameState_has_move s b = Res.guard (s.hasMovePanics b) (s.hasMove b)) ∧
     (∀ s : GameState, GameState_is_terminal s = Res.guard s.isTerminalPanics s.isTerminal) ∧
     (∀ (s : GameState) (cr : Bool), GameState_can_pass s cr = Res.guard (s.canPassPanics cr) (s.canPass cr)) :=
-  ⟨RsAgree.valid_actions__eq, RsAgree.has_move_eq, RsAgree.is_terminal_eq, RsAgree.can_pass_eq⟩
+  ⟨(by simp only [bridge_GameState_valid_actions_]; exact RsAgree.valid_actions__eq),
+   (by simp only [bridge_GameState_has_move]; exact RsAgree.has_move_eq),
+   (by simp only [bridge_GameState_is_terminal]; exact RsAgree.is_terminal_eq),
+   (by simp only [bridge_GameState_can_pass]; exact RsAgree.can_pass_eq)⟩
 
 /-- **C07 for the code as it is now**: whatever the regenerated `has_move` and `valid_actions` return,
 "no result" coincides with "the offered list is non-empty" -/
@@ -35,6 +45,8 @@ theorem C07_code_has_move_iff (s : GameState) (pp : PlayPhase) (hph : s.phase = 
     (r : Option Terminal) (l : List Action)
     (hr : GameState_has_move s s.board = .ok r) (hl : GameState_valid_actions s = .ok l) :
     r = none ↔ l ≠ [] := by
+  simp only [bridge_GameState_has_move] at hr
+  simp only [bridge_GameState_valid_actions] at hl
   have h1 := (C07_value_of_ok (RsAgree.has_move_eq s s.board) hr).2
   have h2 := (C07_value_of_ok (RsAgree.valid_actions_eq s) hl).2
   subst h1 h2
